@@ -84,6 +84,15 @@ Qed.
 (* ------------------------------------------------------------------------------------------------ non-vacuity *)
 Definition trap0 : trapR := mk_trap 0 0 0 0 0 0 0 0 0 0 0 0.
 
+(* a concrete well-formed trapezoid context (the one the generator produces for the request of trap_gen_ex below), and its
+   mirror image for the other direction of travel *)
+Example trap_ex_wf :
+  WFtrap 1 (mk_trap 3 0 2 0 0 1 1 2 (1/2) (3/2) 1 (-1)) /\ WFtrap 1 (mk_trap 3 0 (-2) 0 0 (-1) 1 2 (-1/2) (-3/2) (-1) 1).
+Proof.
+  split; constructor; cbn [t_t t_p0 t_p1 t_v0 t_v1 t_vc t_ta t_td t_pa t_pd t_ac t_de]; unfold Rsqr;
+    try (apply Rabs_le); lra.
+Qed.
+
 (* decide every comparison between concrete numbers in the goal *)
 Ltac decide_cmp :=
   repeat (match goal with
